@@ -11,7 +11,8 @@ META = {
              '(origin first?, origin last?, #logical files, order of first use of each type); non-trivial when the origin '
              'was not created first, sets are named or there are several logical files'),
     'required_obs': {'quick': ['c09-lf', 'c09-origin-last', 'c09-origin-not-first', 'c09-multi-origin-sets', 'c09-named-set',
-                               'c09-multi-lf', 'header-change-then-rewrite']},
+                               'c09-multi-lf', 'header-change-then-rewrite', 'empty-set-name', 'set-renamed-after-creation',
+                               'retried-after-rejected-call', 'origin-file-set-number-left-to-library']},
     'assumptions': [],
 }
 META['required_obs']['thorough'] = META['required_obs']['quick']
